@@ -222,9 +222,20 @@ def run(check):
       m = c.methods.get(name)
       if m is None:
         continue
-      calls = [k for k in walk_no_nested(m.node, include_self=False) if isinstance(k, ast.Call) and
-               isinstance(k.func, ast.Attribute) and k.func.attr == 'metricReceived' and
-               isinstance(k.func.value, ast.Name) and k.func.value.id == 'self']
+      seen_m = [m]
+      todo_m = [m]
+      calls = []
+      while todo_m:
+        cur = todo_m.pop()
+        for k in walk_no_nested(cur.node, include_self=False):
+          if isinstance(k, ast.Call) and isinstance(k.func, ast.Attribute) and isinstance(k.func.value, ast.Name) and k.func.value.id == 'self':
+            if k.func.attr == 'metricReceived':
+              calls.append(k)
+            else:
+              for callee, _ in cx.callees(k, cur)[0]:
+                if callee.cls is not None and callee.module.name == 'carbon.protocols' and callee not in seen_m:
+                  seen_m.append(callee)
+                  todo_m.append(callee)
       if calls:
         r_g.ok('%s.%s -> self.metricReceived' % (c.name, name), m.loc(calls[0]))
       else:
